@@ -210,7 +210,8 @@ class SetMembersMixin:
                         # Accessing attributes of the value or member can trigger alias errors.
                         # Accessing file paths can trigger a builtin module error.
                         with suppress(AliasResolutionError, CyclicAliasError, BuiltinModuleError):
-                            if value.is_module and value.filepath != member.filepath:
+                            # Only actual modules are merged: an alias is a reference to an object living elsewhere.
+                            if not value.is_alias and value.is_module and value.filepath != member.filepath:
                                 with suppress(ValueError):
                                     value = merge_stubs(member, value)  # type: ignore[arg-type]
                     aliases = list(member.aliases.values())
